@@ -775,7 +775,7 @@ Lemma nominate_sim_identity : forall o now w row, nominate KSim o now w row = fs
 Proof. reflexivity. Qed.
 
 Lemma nominate_only_placed : forall k o now w pre, nominate k o now w (pre, false) = pre.
-Proof. intros [|] [| | | |]; reflexivity. Qed.
+Proof. intros [|] [| | | | |]; reflexivity. Qed.
 
 Lemma fold_np_untouched : forall now pod nps b,
   (forall np, In np nps -> existsb (fun p => Z.eqb (fst p) pod && negb (snd p)) (snd np) = false) ->
